@@ -206,7 +206,7 @@ CHECKS = {
         "shards": {"quick": 1, "thorough": 1},
         "budget_s": {"quick": 240, "thorough": 2400},
         "meta": {
-            "rule": "(A) in-memory backend vs a reference log built by an independent recording tracer: every history of depth 3 (thorough 4) over a 7-mutation alphabet (Multi, relation-rejected, handler-vetoed and check mutations included) x 32 tracking configs (4 tracked subsets x MaxRecords 1..3, TrackRejected, Called allow/block, Changed allow/block); record count, order, tracked time, time sum, MachineRecord, FindLatest x {Active, Inactive, Activated, Deactivated} x every tracked state x limits {0,1,2} x {no range, MTimeSum range}, Active/InactiveBetween, Export->Import; (B) bbolt, badger and gorm/sqlite on real files (QueueBatch 2) against the in-memory backend fed the same history: every 7th history x 9 configs (thorough: every history x every config) - queryable right after Sync, FindLatest(all / Active / Inactive / Activated / Deactivated per tracked state), errors reported through onErr, then stop (Dispose + close), reopen with a fresh machine: same log, and one more record goes on top; (C) long logs (8/24/60 toggles + 2 batches, MaxRecords 2 and 5): in-memory bound exact, persistent backends bounded (3x MaxRecords + batch once the collector ran) and newest records equal",
+            "rule": "(A) in-memory backend vs a reference log built by an independent recording tracer: every history of depth 3 (thorough 4) over a 7-mutation alphabet (Multi, relation-rejected, handler-vetoed and check mutations included) x 32 tracking configs (4 tracked subsets x MaxRecords 1..3, TrackRejected, Called allow/block, Changed allow/block); record count, order, tracked time, time sum, MachineRecord, FindLatest x {Active, Inactive, Activated, Deactivated} x every tracked state x limits {0,1,2} x {no range, MTimeSum range}, Active/InactiveBetween, Export->Import; (B) bbolt, badger and gorm/sqlite on real files (QueueBatch 2) against the in-memory backend fed the same history: every 7th history x 9 configs (thorough: every history x every config) - queryable right after Sync, FindLatest(all / Active / Inactive / Activated / Deactivated per tracked state), errors reported through onErr, then stop (Dispose + close), reopen with a fresh machine: same log, and one more record goes on top; (C) long logs (8/24/60 toggles + 2 batches, MaxRecords 2 and 5): in-memory bound exact, persistent backends bounded (3x MaxRecords + batch once the collector ran) and newest MaxRecords records equal",
             "assumptions": ["a persistent backend may still hold records older than the in-memory window (lazy collector): the in-memory answer must then be the newest part of its answer, and Activated/Deactivated are not compared for that case nor for filtered (Called/Changed) logs, where 'changed' can be read against the skipped transition or the previous record (both readings are accepted for the in-memory backend, too)", "whether the oldest retained record 'activated' a state has no predecessor to be judged against and is not compared across backends", "the stop is a graceful one (Dispose + Close); a kill between Sync and Close is not simulated (Sync is documented not to guarantee persistence)", "part B and C run in real time on real files under the check's work directory"],
         },
     },
